@@ -28,8 +28,15 @@ type Container struct {
 	doNotRecover           bool // default is true
 	recoverHandleFunc      RecoverHandleFunction
 	serviceErrorHandleFunc ServiceErrorHandleFunction
-	router                 RouteSelector // default is a CurlyRouter (RouterJSR311 is a slower alternative)
-	contentEncodingEnabled bool          // default is false
+	router                 RouteSelector  // default is a CurlyRouter (RouterJSR311 is a slower alternative)
+	contentEncodingEnabled bool           // default is false
+	plainHandlers          []plainHandler // registered with Handle ; kept to survive the rebuild of the ServeMux in Remove
+}
+
+// plainHandler is a http.Handler registered on the ServeMux with Handle
+type plainHandler struct {
+	pattern string
+	handler http.Handler
 }
 
 // NewContainer creates a new Container using a new ServeMux and default router (CurlyRouter)
@@ -162,6 +169,9 @@ func (c *Container) Remove(ws *WebService) error {
 			}
 			newServices = append(newServices, each)
 		}
+	}
+	for _, each := range c.plainHandlers {
+		newServeMux.Handle(each.pattern, each.handler)
 	}
 	c.webServices, c.ServeMux, c.isRegisteredOnRoot = newServices, newServeMux, newIsRegisteredOnRoot
 	return nil
@@ -361,7 +371,9 @@ func (c *Container) ServeHTTP(httpWriter http.ResponseWriter, httpRequest *http.
 
 // Handle registers the handler for the given pattern. If a handler already exists for pattern, Handle panics.
 func (c *Container) Handle(pattern string, handler http.Handler) {
-	c.ServeMux.Handle(pattern, http.HandlerFunc(func(httpWriter http.ResponseWriter, httpRequest *http.Request) {
+	c.webServicesLock.Lock()
+	defer c.webServicesLock.Unlock()
+	c.handle(pattern, http.HandlerFunc(func(httpWriter http.ResponseWriter, httpRequest *http.Request) {
 		// Skip, if httpWriter is already an CompressingResponseWriter
 		if _, ok := httpWriter.(*CompressingResponseWriter); ok {
 			handler.ServeHTTP(httpWriter, httpRequest)
@@ -392,6 +404,13 @@ func (c *Container) Handle(pattern string, handler http.Handler) {
 
 		handler.ServeHTTP(writer, httpRequest)
 	}))
+}
+
+// handle registers the handler on the ServeMux and remembers it for when Remove rebuilds the ServeMux.
+// this function must run inside the critical region protected by the webServicesLock.
+func (c *Container) handle(pattern string, handler http.Handler) {
+	c.ServeMux.Handle(pattern, handler)
+	c.plainHandlers = append(c.plainHandlers, plainHandler{pattern, handler})
 }
 
 // HandleWithFilter registers the handler for the given pattern.
